@@ -3,7 +3,7 @@ CONSTANTS
   PageSize = 4
   DevID = 1
   PortCap = 1
-  Reqs <- MCReqs
+  Reqs <- MCReqs3
   PBases <- MCPBases
   RspData <- MCRspData1
   MaxReq = 3
